@@ -87,7 +87,7 @@ def setNamesL (value : Option DimNames) (L : LZ) : LZ × Out :=
       else
         let (ms, o) := eachMember (setNamesM (some namesC)) L.members
         match o with
-        | .err e => ({ L with members := ms }, .err e)
+        | .err e => (L, .err e)      -- the members get their dim names back (`_dim_names_snapshot`): a refused assignment changes nothing
         | .ok => ({ L with members := ms, sname := name }, .ok)
 
 /-- `batch_size = new` with a list: a lazy representation refuses (`_batch_size_setter`) -/
